@@ -60,7 +60,8 @@ def make_range(rng, msgs):
     if s is not None and e is not None and e < s:
         s, e = e, s
     if kind == 'abs':
-        return TimeRange(start=s, end=e, absolute=True), {'kind': kind, 'start': s, 'end': e}
+        trd = {'kind': kind, 'start': s, 'end': e, 'spelling': rng.randrange(4)}
+        return range_from_dict(trd), trd
     if kind == 'rel':
         return TimeRange(start=s, end=e, absolute=False), {'kind': kind, 'start': s, 'end': e}
     t0 = rng.choice([lo, lo + 0.5, float(int(lo))])
@@ -73,10 +74,37 @@ def range_from_dict(trd):
     if trd is None:
         return None
     if trd['kind'] == 'abs':
-        return TimeRange(start=trd['start'], end=trd['end'], absolute=True)
+        s, e, sp = trd['start'], trd['end'], trd.get('spelling', 0)
+        ts = lambda x: None if x is None else Timestamp(x)
+        # the same absolute range spelled differently: `absolute` omitted and inferred from a Timestamp bound
+        if sp == 1 and (s is not None or e is not None):
+            return TimeRange(start=ts(s), end=ts(e))
+        if sp == 2 and e is not None and e != float('inf'):
+            return TimeRange(start=s, end=ts(e))
+        if sp == 3 and s is not None:
+            return TimeRange(start=ts(s), end=e)
+        return TimeRange(start=s, end=e, absolute=True)
     if trd['kind'] == 'rel':
         return TimeRange(start=trd['start'], end=trd['end'], absolute=False)
     return TimeRange(start=trd['start'], end=trd['end'], absolute=False, p1_t0=Timestamp(trd['t0']))
+
+
+def intent_text(trd):
+    """The requested range as the documentation defines it, independent of the TimeRange object: absolute ranges are
+    absolute however they are spelled; an absolute start of 0 and an infinite end are open bounds."""
+    if trd is None:
+        return '-'
+
+    def f(x):
+        return 'n' if x is None else str(int(round(x * rc.NS)))
+    s, e = trd['start'], trd['end']
+    if e is not None and e == float('inf'):
+        e = None
+    if trd['kind'] == 'abs':
+        if s is not None and s == 0.0:
+            s = None
+        return ','.join(['a', f(s), f(e), 'n'])
+    return ','.join(['r', f(s), f(e), f(trd.get('t0'))])
 
 
 def one_case(ctx, data, path, msgs, lines, pending, flags=None, fixed=None):
@@ -101,11 +129,12 @@ def one_case(ctx, data, path, msgs, lines, pending, flags=None, fixed=None):
     require_p1 = False      # read_next(require_p1_time=...) is not one of the property's criteria (a NaN P1 time counts as present there)
     style = (fixed or {}).get('style', rng.randrange(6))
     res = read_filtered(path, types, tr, sources, max_bytes, flags, require_p1, style)
-    rt = rc.range_text(tr)
-    args = '%s %s %s %s %s' % (rc.log_text(msgs), '-' if types is None else ','.join(map(str, types)), rt,
+    rt = rc.range_text(tr)                 # what the constructed TimeRange object says (input of the literal model)
+    it = intent_text(trd)                  # what was asked for (input of the specification)
+    fmt = '%s %s %%s %s %s' % (rc.log_text(msgs), '-' if types is None else ','.join(map(str, types)),
                                '-' if sources is None else ','.join(map(str, sources)), 'n' if max_bytes is None else max_bytes)
-    lines.append('rdread ' + args + (' 1' if require_p1 else ' 0'))
-    lines.append('rdspec ' + args)
+    lines.append('rdread ' + (fmt % rt) + (' 1' if require_p1 else ' 0'))
+    lines.append('rdspec ' + (fmt % it))
     replay = {'file': data.hex(), 'types': types, 'time_range': trd, 'sources': sources, 'max_bytes': max_bytes, 'flags': list(flags),
               'require_p1': require_p1, 'style': style}
     pending.append((replay, res, flags, msgs, data))
